@@ -21,6 +21,7 @@ use std::sync::{Arc, Mutex};
 use std::time::{Duration, Instant};
 
 pub mod cap;
+pub mod forked;
 pub mod known;
 pub mod util;
 
@@ -174,6 +175,11 @@ pub struct FoundViolation {
 // ---------------------------------------------------------------------------
 
 static PANIC_INFO: Mutex<String> = Mutex::new(String::new());
+
+/// Message and location of the most recent panic in this process.
+pub fn last_panic_info() -> String {
+    PANIC_INFO.lock().map(|s| s.clone()).unwrap_or_default()
+}
 
 fn install_panic_hook() {
     std::panic::set_hook(Box::new(|info| {
@@ -816,9 +822,11 @@ pub fn check_main(space: &(dyn Space + Sync), cfg: &RunCfg) -> i32 {
         }
         let _ = std::fs::create_dir_all(&replay_dir);
         let path = replay_dir.join(format!("{}.json", printed));
+        // which build of the harness saw it: "release" when the check ran its release-profile pass
+        let profile = std::env::var("VERIF_PROFILE").unwrap_or_else(|_| "checked".to_string());
         let body = json!({
             "property": id, "tier": cfg.tier, "index": v.idx, "case": v.case,
-            "signature": v.sig, "observed": v.detail,
+            "signature": v.sig, "observed": v.detail, "profile": profile,
             "how_to_replay": format!("./check {} --replay {}", id, path.display()),
         });
         let _ = std::fs::write(&path, serde_json::to_string_pretty(&body).unwrap());
